@@ -1084,7 +1084,183 @@ func genEncRend(ctx *core.Ctx) {
 	}
 }
 
+// the include path, stage level: section kinds of the including and the included model × object shapes (resolved or
+// not, user-written carrier) × placement of the variable (top / env file / both / neither) × conflicts
+func genIncResolve(ctx *core.Ctx) {
+	objs := []any{
+		nil, "str", tree{}, tree{"environment": "E"}, tree{"environment": "F"}, tree{"environment": ""}, tree{"environment": 3},
+		tree{"environment": "E", "x-#value": "old", "content": "old"}, tree{"file": "./f"}, tree{"environment": "E", "x-foo": 1},
+	}
+	envPairs := [][2]map[string]string{
+		{{}, {}}, {{"E": "TOP"}, {}}, {{}, {"E": "FILE"}}, {{"E": "TOP"}, {"E": "FILE"}}, {{"F": "TOPF"}, {"E": "FILE: #x", "F": "shadowed"}},
+		{{"E": ""}, {"E": "FILE"}}, {{}, {"": "EMPTYNAME", "E": "a\nb"}},
+	}
+	sectKinds := []string{"absent", "null", "list", "str", "map"}
+	mk := func(kind string, m tree) (any, bool) {
+		switch kind {
+		case "null":
+			return nil, true
+		case "list":
+			return []any{tree{"environment": "E"}}, true
+		case "str":
+			return "x", true
+		case "map":
+			return m, true
+		}
+		return nil, false
+	}
+	for _, ep := range envPairs {
+		for _, mk1 := range sectKinds {
+			for _, mk2 := range sectKinds {
+				for i := range objs {
+					if (mk1 != "map" || mk2 != "map") && i > 1 {
+						break
+					}
+					o1, o2, o3 := objs[i], objs[(i*3+1)%len(objs)], objs[(i*7+2)%len(objs)]
+					main, inc := tree{}, tree{}
+					// `both` is declared on the two sides: equal for even i (skipped), different for odd i (conflict)
+					var o4 any = core.DeepCopyVal(o1)
+					if i%2 == 1 {
+						o4 = tree{"file": "./other"}
+					}
+					for _, sect := range []string{"secrets", "configs"} {
+						if v, ok := mk(mk1, tree{"m1": core.DeepCopyVal(o2), "both": o4}); ok {
+							main[sect] = v
+						}
+						if v, ok := mk(mk2, tree{"i1": core.DeepCopyVal(o1), "i2": core.DeepCopyVal(o3), "both": core.DeepCopyVal(o1)}); ok {
+							inc[sect] = v
+						}
+					}
+					ctx.Count("incResolve-exh-" + mk1 + "-" + mk2)
+					ctx.Add("c20.incResolve", incArgs{Main: enc(main), Inc: enc(inc), Env: ep[0], IncEnv: ep[1]})
+				}
+			}
+		}
+	}
+	for i := 0; i < ctx.Pick(1500, 30000); i++ {
+		r := ctx.Rng
+		vars := []string{"E", "F", "G", "", "e"}
+		top, file := map[string]string{}, map[string]string{}
+		for _, v := range vars {
+			switch r.Intn(4) {
+			case 0:
+				top[v] = fmt.Sprintf("T%d%s", r.Intn(100), c20Deco[r.Intn(len(c20Deco))][1])
+			case 1:
+				file[v] = fmt.Sprintf("F%d%s", r.Intn(100), c20Deco[r.Intn(len(c20Deco))][1])
+			case 2:
+				top[v], file[v] = fmt.Sprintf("T%d", r.Intn(100)), fmt.Sprintf("F%d", r.Intn(100))
+			}
+		}
+		randObj := func() any {
+			if r.Intn(8) == 0 {
+				return core.KindValue(core.Kinds[r.Intn(len(core.Kinds))], r)
+			}
+			o := tree{}
+			switch r.Intn(5) {
+			case 0:
+				o["file"] = "./f"
+			case 1:
+				o["external"] = true
+			case 2:
+				o["environment"] = core.KindValue(core.Kinds[r.Intn(len(core.Kinds))], r)
+			default:
+				o["environment"] = vars[r.Intn(len(vars))]
+			}
+			if r.Intn(5) == 0 {
+				o["x-#value"] = "user"
+			}
+			if r.Intn(5) == 0 {
+				o["content"] = "user"
+			}
+			return o
+		}
+		main, inc := tree{}, tree{}
+		for _, sect := range []string{"secrets", "configs"} {
+			for _, d := range []tree{main, inc} {
+				switch r.Intn(8) {
+				case 0:
+				case 1:
+					d[sect] = core.KindValue(core.Kinds[r.Intn(len(core.Kinds))], r)
+				default:
+					m := tree{}
+					for j := 0; j < 1+r.Intn(3); j++ {
+						m[[]string{"s1", "s2", "x-s", "a.b", ""}[r.Intn(5)]] = randObj()
+					}
+					d[sect] = m
+				}
+			}
+			// sometimes the same name on both sides, with the same definition
+			if mm, ok := main[sect].(tree); ok && r.Intn(3) == 0 {
+				if im, ok := inc[sect].(tree); ok {
+					for n, o := range im {
+						mm[n] = core.DeepCopyVal(o)
+						break
+					}
+				}
+			}
+		}
+		ctx.Count("incResolve-random")
+		ctx.Add("c20.incResolve", incArgs{Main: enc(main), Inc: enc(inc), Env: top, IncEnv: file})
+	}
+}
+
+// the include path, whole load: the models of the include-env layout of the oracle, against Secrets.loadDictInc
+func genFlowInc(ctx *core.Ctx) {
+	conv := func(a leakArgs, long bool) incArgs {
+		main := core.DecodeValRaw(a.Files["compose.yaml"]).(map[string]any)
+		delete(main, "include")
+		txt := a.RawFiles["mod/.env"]
+		if long {
+			txt = a.RawFiles["mod/mod.env"]
+		}
+		return incArgs{Main: enc(main), Inc: a.Files["mod/compose.yaml"], Env: a.Env, IncEnv: a.IncEnv, PName: a.PName, Long: long, EnvTxt: txt}
+	}
+	decos := [][2]string{c20Deco[0], c20Deco[1], c20Deco[5], c20Deco[20]}
+	for _, sk := range []string{"file", "environment", "external", "none"} {
+		for _, ck := range []string{"file", "environment", "content", "none"} {
+			if sk != "environment" && ck != "environment" {
+				continue
+			}
+			for _, extras := range []int{0, 4, 1 | 2 | 8, 16 | 4} {
+				for mode := 0; mode < 4; mode++ {
+					for v := 0; v < 4; v++ {
+						m := modelSpec{refs: (mode + v) % 3, pname: "proj"}
+						env, cores := map[string]string{}, map[string]string{}
+						deco := decos[(mode+v+extras)%len(decos)]
+						if sk != "none" {
+							m.secrets = []resSpec{{name: "s1", kind: sk, varn: "SVAR", extras: extras}}
+							if sk == "environment" && mode != 3 {
+								env["SVAR"], cores["SVAR"] = canary(1+v, deco)
+							}
+						}
+						if ck != "none" {
+							m.configs = []resSpec{{config: true, name: "c1", kind: ck, varn: "CVAR", extras: extras}}
+							if ck == "environment" && mode != 3 {
+								env["CVAR"], cores["CVAR"] = canary(100+v, deco)
+							}
+						}
+						mode := mode
+						ctx.Count("flowInc-exh")
+						a := m.leakArgsIncEnv(env, cores, func(string) int { return mode % 3 }, v&1 == 1, v&2 == 2, nil, func(string) {})
+						ctx.Add("c20.flowInc", conv(a, v&1 == 1))
+					}
+				}
+			}
+		}
+	}
+	for i := 0; i < ctx.Pick(500, 10000); i++ {
+		r := ctx.Rng
+		m, env, cores := randModel(r, false)
+		long := r.Intn(2) == 0
+		a := m.leakArgsIncEnv(env, cores, func(string) int { return r.Intn(3) }, long, r.Intn(2) == 0, r, func(string) {})
+		ctx.Count("flowInc-random")
+		ctx.Add("c20.flowInc", conv(a, long))
+	}
+}
+
 func runC20(ctx *core.Ctx) {
+	genIncResolve(ctx)
+	genFlowInc(ctx)
 	genBytes(ctx)
 	genEncRend(ctx)
 	genResolve(ctx)
